@@ -54,13 +54,44 @@ pub open spec fn blinding_ok(p: &MvPoly, num_vars: nat, d: nat) -> bool {
     forall|i: int| 0 <= i < p.terms@.len() ==> (#[trigger] p.terms@[i]).1.v@.len() <= 1
         && (p.terms@[i].1.v@.len() == 1 ==> p.terms@[i].1.v@[0].0 < num_vars && 1 <= p.terms@[i].1.v@[0].1 <= d)
 }
+impl MvPoly {
+    // SparsePolynomial::rand(d, l, rng): the sum of l univariate polynomials of degree d with coefficients from the caller's stream   [assumed]
+    #[verifier::external_body] pub fn rand(d: usize, l: usize, rng: &mut Rng) -> (r: MvPoly)
+        ensures old(rng).present@, blinding_ok(&r, l as nat, d as nat), r.num_vars == l,
+            final(rng).id == old(rng).id, final(rng).present == old(rng).present, final(rng).pos@ >= old(rng).pos@ + r.terms@.len(),
+            forall|i: int| 0 <= i < r.terms@.len() ==> (#[trigger] r.terms@[i]).0@ == draw(old(rng).id@, old(rng).pos@ + i as nat) { unimplemented!() }
+}
 impl Randomness {
-    #[verifier::external_body] pub fn empty() -> (r: Randomness) ensures r.blinding_polynomial.terms@.len() == 0, r.blinding_polynomial.num_vars == 0 { unimplemented!() }
-    // Randomness::rand(h, _, Some(num_vars), rng) = SparsePolynomial::rand(h + 1, num_vars, rng): coefficients from the caller's stream
-    #[verifier::external_body] pub fn rand(hiding_bound: usize, _b: bool, num_vars: Option<usize>, rng: &mut Rng) -> (r: Randomness)
-        ensures num_vars is Some, old(rng).present@, blinding_ok(&r.blinding_polynomial, num_vars->Some_0 as nat, (hiding_bound + 1) as nat),
-            final(rng).id == old(rng).id, final(rng).present == old(rng).present, final(rng).pos@ >= old(rng).pos@ + r.blinding_polynomial.terms@.len(),
-            forall|i: int| 0 <= i < r.blinding_polynomial.terms@.len() ==> (#[trigger] r.blinding_polynomial.terms@[i]).0@ == draw(old(rng).id@, old(rng).pos@ + i as nat) { unimplemented!() }
+//@fn id=pst13.Randomness.calculate_hiding_polynomial_degree file=poly-commit/src/marlin/marlin_pst13_pc/data_structures.rs scope="impl<E, P> Randomness<E, P>" name=calculate_hiding_polynomial_degree props=C07
+    pub fn calculate_hiding_polynomial_degree(hiding_bound: usize) -> (r: usize)
+    requires
+        hiding_bound < usize::MAX,
+    ensures
+        r == hiding_bound + 1,   // name=pst13.Randomness.hiding_polynomial_degree_is_bound_plus_one props=C07
+//@body
+//@end
+//@fn id=pst13.Randomness.empty file=poly-commit/src/marlin/marlin_pst13_pc/data_structures.rs scope="impl<E, P> PCCommitmentState for Randomness<E, P>" name=empty props=C07
+    pub fn empty() -> (r: Randomness)
+    ensures
+        r.blinding_polynomial.terms@.len() == 0, r.blinding_polynomial.num_vars == 0,   // name=pst13.Randomness.empty.zero_blinding_polynomial props=C07
+//@body
+//@rw 1 /P::zero\(\)/ => MvPoly::zero()
+//@rw 1 /_engine: PhantomData,/ =>
+//@end
+//@fn id=pst13.Randomness.rand file=poly-commit/src/marlin/marlin_pst13_pc/data_structures.rs scope="impl<E, P> PCCommitmentState for Randomness<E, P>" name=rand props=C07
+    pub fn rand(hiding_bound: usize, _b: bool, num_vars: Option<usize>, rng: &mut Rng) -> (r: Randomness)
+    requires
+        hiding_bound < usize::MAX,
+    ensures
+        // (no variable count: abort)  one univariate blinding polynomial of degree hiding_bound + 1 per variable, coefficients fresh from the caller's RNG
+        num_vars is Some, old(rng).present@, blinding_ok(&r.blinding_polynomial, num_vars->Some_0 as nat, (hiding_bound + 1) as nat),   // name=pst13.Randomness.rand.degree_bound_plus_one_per_variable props=C07
+        final(rng).id == old(rng).id, final(rng).present == old(rng).present, final(rng).pos@ >= old(rng).pos@ + r.blinding_polynomial.terms@.len(),
+        forall|i: int| 0 <= i < r.blinding_polynomial.terms@.len() ==> (#[trigger] r.blinding_polynomial.terms@[i]).0@ == draw(old(rng).id@, old(rng).pos@ + i as nat),   // name=pst13.Randomness.rand.coefficients_from_the_callers_rng props=C07
+//@body
+//@destructure _b = _
+//@rw 1 /P::rand\((.*?), num_vars\.unwrap\(\), rng\)/ => MvPoly::rand(\1, num_vars.unwrap_abort(), rng)
+//@rw 1 /_engine: PhantomData,/ =>
+//@end
 }
 
 //@spec mvpoly_spec
